@@ -195,7 +195,11 @@ type EnvSpec struct {
 	NS    map[string]string `json:"ns,omitempty"`
 	Vars  []VarSpec         `json:"vars,omitempty"`
 	Funcs []string          `json:"funcs,omitempty"` // stock user functions, see stockFuncs
-	rec   *recorder         // call logs of recording user functions (not serialised)
+	// Assign: hand the bindings over the way the command line tool does - one
+	// ContextApply that ASSIGNS caller-built maps to the exported fields instead
+	// of inserting into the maps the library prepared.
+	Assign bool      `json:"assign,omitempty"`
+	rec    *recorder // call logs of recording user functions (not serialised)
 }
 
 // recorder collects what recording user functions observed on each side.
@@ -288,6 +292,15 @@ func (e EnvSpec) ImplSettings(b *impl.Binding) []xsel.ContextApply {
 			out = append(out, xsel.WithFunctionNS(sf.space, sf.local, sf.impl(b)))
 		}
 	}
+	if e.Assign {
+		own := xsel.ContextSettings{NamespaceDecls: map[string]string{}, Variables: map[xsel.XmlName]xsel.Result{}, FunctionLibrary: map[xsel.XmlName]xsel.Function{}}
+		for _, f := range out {
+			f(&own)
+		}
+		return []xsel.ContextApply{func(c *xsel.ContextSettings) {
+			c.NamespaceDecls, c.Variables, c.FunctionLibrary = own.NamespaceDecls, own.Variables, own.FunctionLibrary
+		}}
+	}
 	return out
 }
 
@@ -376,6 +389,8 @@ func ExecImpl(b *impl.Binding, ctx store.Cursor, g *xsel.Grammar, settings []xse
 			o = Outcome{Panic: fmt.Sprint(r)}
 		}
 	}()
+	slot := run.Enter("Exec", g)
+	defer run.Leave(slot) // also when the call panics
 	r, err := xsel.Exec(ctx, g, settings...)
 	return ImplOutcome(b, r, err)
 }
@@ -388,6 +403,8 @@ func BuildImpl(expr string) (g *xsel.Grammar, o Outcome) {
 			o = Outcome{Panic: fmt.Sprint(r)}
 		}
 	}()
+	slot := run.Enter("BuildExpr", expr)
+	defer run.Leave(slot)
 	gg, err := xsel.BuildExpr(expr)
 	if err != nil {
 		return nil, Outcome{Err: true, ErrText: "BuildExpr: " + firstLine(err.Error())}
